@@ -59,6 +59,35 @@ def evalPhase (ev : List Int → List Int) (all : Bool) (g : Nat) (s : LState) (
             shownObj := s.shownObj ++ l.map (fun o => (o, assignFits ev s.st.heap inv o)),
             evals := s.evals ++ inv.map (fun o => (g, o)) }, inv.length)
 
+/-! Executable counterpart of `evalPhase` (same function, proved equal, used by compiled code through `csimp`):
+`assignFits` returns a heap, i.e. a function, so compiled code would re-run the whole assignment loop at every
+later lookup; the boxed fold below is run once. -/
+
+structure HeapBox where
+  h : Heap
+
+def assignFitsB (ev : List Int → List Int) : HeapBox → List Nat → HeapBox
+  | b, [] => b
+  | b, o :: os => assignFitsB ev ⟨b.h.set o { b.h o with fit := some (ev (b.h o).genome) }⟩ os
+
+theorem assignFitsB_h (ev : List Int → List Int) (l : List Nat) (b : HeapBox) :
+    (assignFitsB ev b l).h = assignFits ev b.h l := by
+  induction l generalizing b with
+  | nil => rfl
+  | cons o os ih => simp only [assignFitsB, assignFits, ih]
+
+def evalPhaseFast (ev : List Int → List Int) (all : Bool) (g : Nat) (s : LState) (l : List Nat) : LState × Nat :=
+  let inv := if all then l else invalidOf s.st.heap l
+  let hb := assignFitsB ev ⟨s.st.heap⟩ inv
+  ({ s with st := { s.st with heap := hb.h },
+            shown := s.shown ++ l,
+            shownObj := s.shownObj ++ l.map (fun o => (o, hb.h o)),
+            evals := s.evals ++ inv.map (fun o => (g, o)) }, inv.length)
+
+@[csimp] theorem evalPhase_eq_fast : @evalPhase = @evalPhaseFast := by
+  funext ev all g s l
+  simp only [evalPhase, evalPhaseFast, assignFitsB_h]
+
 /-- Generation 0 of the four population-based loops: evaluate the invalid individuals of the initial
 population, show the population to the hall of fame, record `gen=0`. -/
 def gen0 (ev : List Int → List Int) (s : LState) : LState :=
